@@ -81,6 +81,12 @@ package bcl
 //@   loop 2 invariant blocks_fresh: isnew(blocks) && arr(blocks) != arr(vm.result)
 //@   loop 2 invariant outer_state_kept: vm.tos == prev(vm.tos) && vm.blockTos == prev(vm.blockTos) && vm.blockStack == prev(vm.blockStack) && vm.result == prev(vm.result) && vm.prog == old(vm.prog) && !overflow && instr == opBIND && vm.prog.linePos != nil
 
+// pure stack read
+//@ func (*vm).run/peek
+//@   requires in_stack: 0 <= vm.tos - 1 - distance && vm.tos - 1 - distance < 1024
+//@   ensures result == vm.stack[vm.tos-1-distance]
+//@   modifies nothing
+
 // closures of run with loops
 //@ func (*vm).run/blockGet
 //@   requires in_block_for_pseudo_fields: (name == "TYPE" || name == "NAME") ==> 1 <= vm.blockTos
